@@ -157,6 +157,13 @@ L_AcceptTimeout ==  \* the accept deadline expired
   /\ spc' = "tcheck"
   /\ UNCHANGED <<running, listener, lstate, nextid, counter, wg, names, cancelled, sl, tmo, acc, sret, rounds, cst, cl,
                  sdpc, bdpc, rgpc, rgarg, rgret, gate, g_sdWaiting, g_sdDoneAt, g_servedEp, g_regs>>
+L_AcceptFail ==     \* Accept fails for another reason (EMFILE, ...) although the listener is open: injected like the expiries
+  /\ spc = "accept" /\ lstate[sl] = "open"
+  /\ expiries < MaxTimeouts
+  /\ expiries' = expiries + 1
+  /\ spc' = "echeck"
+  /\ UNCHANGED <<running, listener, lstate, nextid, counter, wg, names, cancelled, sl, tmo, acc, sret, rounds, cst, cl,
+                 sdpc, bdpc, rgpc, rgarg, rgret, gate, g_sdWaiting, g_sdDoneAt, g_servedEp, g_regs>>
 L_AcceptClosed ==   \* the listener was closed: Accept fails with a non-timeout error
   /\ spc = "accept" /\ lstate[sl] = "closed"
   /\ spc' = "echeck"
@@ -294,7 +301,7 @@ SrvNext == D_GetL \/ L_SetRunning \/ L_Check \/ L_Refresh \/ L_AcceptClosed \/ L
 HNext == \E c \in Clients : H_Exit(c) \/ H_CtxEnd(c)
 SdNext == S_All \/ S_Clear \/ S_Close
 EnvNext == \/ \E t, g \in BOOLEAN : ServeStart(t, g /\ t)
-           \/ ReleaseGate \/ L_AcceptTimeout
+           \/ ReleaseGate \/ L_AcceptTimeout \/ L_AcceptFail
            \/ \E c \in Clients : Connect(c) \/ EndClient(c)
            \/ B_Check \/ B_Set \/ B_Again \/ S_Again
            \/ \E i \in Ifaces : R_Start(i)
@@ -347,7 +354,7 @@ RefusedWhileServing == (rgpc = "done" /\ rgret = "ok") => TRUE
 (* C14: a cancelled context ends every connection of the serving call, and each is accounted for; *)
 (* the serving call itself keeps accepting until Shutdown                                          *)
 CancelEndsConnections == \A c \in Clients : (cancelled /\ cst[c] = "handled") ~> (cst[c] = "released")
-CancelAloneDoesNotStop == [][(spc = "accept" /\ spc' # "accept" /\ cancelled /\ lstate[sl] = "open") => spc' \in {"inc", "tcheck"}]_vars
+CancelAloneDoesNotStop == [][(spc = "accept" /\ spc' # "accept" /\ cancelled /\ lstate[sl] = "open") => (spc' \in {"inc", "tcheck"} \/ (spc' = "echeck" /\ expiries' = expiries + 1))]_vars   \* a connection, an expiry or an injected failure
 
 (* C14 liveness: Shutdown always ends serving once the accepted connections have ended *)
 ShutdownEndsServing == (sdpc = "done" /\ Serving) ~> (spc \in {"return", "idle"})
